@@ -387,7 +387,18 @@ def check_accept(case):
         stage = "simulate"
         call_lcm(fns["simulate"], params, initial_states=init, vf_arr_list=sol, seed=case["seed"])
     except LcmCrash as e:
-        return [f"accepted specification (widening operator {case['op']}) failed in {stage}: {e}"], f"accepted_crash:{case['op']}:{stage}", spec
+        # root cause by predicate on the input: a model whose (table) filters exclude every state
+        # in some period is the 'empty space' shape whatever operator was applied on top of it
+        op = case["op"]
+        try:
+            ref = Reference(spec)
+            for t in range(spec.n_periods):
+                keep = ref.layout(t)[4]
+                if keep is not None and ref.layout(t)[0] and not keep.any():
+                    op = "empty_space_in_a_period"
+        except Exception:  # noqa: BLE001
+            pass
+        return [f"accepted specification (widening operator {case['op']}, shape {op}) failed in {stage}: {e}"], f"accepted_crash:{op}:{stage}", spec
     return [], "accepted_and_ran", spec
 
 
